@@ -257,6 +257,7 @@ func (r YangRange) Validate() error {
 		if n.Min.Less(p.Max) {
 			return errors.New("overlapping ranges")
 		}
+		p = n
 	}
 	return nil
 }
